@@ -94,9 +94,19 @@ def _from_seq_spec(ex, st, call, i, ndofs, out, **k):
 _from_seq_spec.writes = (2,)
 
 
-def _entry_impl_spec(ncomp):
+# supports_overlap(I, J): the generated entry_impl returns WITHOUT writing when the supports of the two basis functions do not intersect
+Overlap = z3.Function('supports_overlap', _IA, _IA, z3.BoolSort())
+
+
+def _entry_impl_spec(ncomp, partial=False):
     def spec(ex, st, call, I, J, ptr, **k):
         ci, cj, c = st.heap[I.id], st.heap[J.id], st.heap[ptr.ref.id]
+        from pyvc.values import arr_select
+
+        def Entry_(ci_data, cj_data, t, where):
+            # partial: the stored value is Entry(I, J, t) if the supports overlap, the OLD content of the cell otherwise
+            v = Entry(ci_data, cj_data, t)
+            return z3.If(Overlap(ci_data, cj_data), v, arr_select(c.data, where)) if partial else v
         import ast as _ast
         midx = getattr(ptr, 'midx', None)
         if midx is not None and len(c.shape) == len(midx) and len(midx) >= 2 and (len(midx) == 2 or not isinstance(c.shape[1], int)):
@@ -105,7 +115,8 @@ def _entry_impl_spec(ncomp):
                 ok = And(*[And(to_z3(i) >= 0, to_z3(i) < to_z3(n)) for i, n in zip(midx[:-1], c.shape[:-1])] +
                          [to_z3(midx[-1]) + t >= 0, to_z3(midx[-1]) + t < to_z3(c.shape[-1])])
                 ex.oblige(st, 'safe:index', call, ok, 'entry_impl writes inside the output row', label='entry_impl:write:%d:L+%d' % (t, ex.rel(call)))
-                c.data = arr_store(c.data, list(midx[:-1]) + [ex.binop(st, _ast.Add(), midx[-1], t, call)], Entry(ci.data, cj.data, z3.IntVal(t)))
+                where = list(midx[:-1]) + [ex.binop(st, _ast.Add(), midx[-1], t, call)]
+                c.data = arr_store(c.data, where, Entry_(ci.data, cj.data, z3.IntVal(t), where))
             return None
         for t in range(ncomp):
             flat = ex.binop(st, _ast.Add(), ptr.offset, t, call)
@@ -114,7 +125,8 @@ def _entry_impl_spec(ncomp):
                 total = total * s_
             ex.oblige(st, 'safe:index', call, And(to_z3(flat) >= 0, to_z3(flat) < to_z3(total)), 'entry_impl writes inside the output buffer',
                       label='entry_impl:write:%d:L+%d' % (t, ex.rel(call)))
-            c.data = arr_store(c.data, ex.unflatten(c, flat), Entry(ci.data, cj.data, z3.IntVal(t)))
+            where = ex.unflatten(c, flat)
+            c.data = arr_store(c.data, where, Entry_(ci.data, cj.data, z3.IntVal(t), where))
         return None
     spec.writes = (2,)
     return spec
@@ -138,7 +150,8 @@ def _chunk_contract(dim, blocks=None):
         return s.old.out[m, t // blocks[1], t % blocks[1]] if blocks else s.old.out[m]
 
     def val(s, m, t):
-        return Entry(_dig(s.idx_arr[m, 0], s.self.S1_ndofs.data), _dig(s.idx_arr[m, 1], s.self.S0_ndofs.data), z3.IntVal(t))
+        dI, dJ = _dig(s.idx_arr[m, 0], s.self.S1_ndofs.data), _dig(s.idx_arr[m, 1], s.self.S0_ndofs.data)
+        return z3.If(Overlap(dI, dJ), Entry(dI, dJ, z3.IntVal(t)), to_z3(old_at(s, m, t)))
 
     def inv(s):
         return [('done', ForAll('m', lambda m: Implies(And(0 <= m, m < s.k), And(*[at(s, m, t) == val(s, m, t) for t in range(nc)])))),
@@ -156,14 +169,16 @@ def _chunk_contract(dim, blocks=None):
                 'idx_arr': Arr('int', 2, shape=(None, 2), elem_range=(0, 2**40)), 'out': outsort},
         requires=lambda s: [s.out.shape[0] == s.idx_arr.shape[0]],
         modifies=('out',),
-        callees={'from_seq%d' % dim: _from_seq_spec, 'self.entry_impl': _entry_impl_spec(nc)},
+        callees={'from_seq%d' % dim: _from_seq_spec, 'self.entry_impl': _entry_impl_spec(nc, partial=True)},
         loops={0: LoopSpec(r'for k in range\(idx_arr\.shape\[0\]\)', inv=inv)},
         ensures=post,
         options={'no_return_ok': True, 'timeout_ms': 30000},
         notes=['precondition len(out) == len(idx_arr): the two chunk generators cut at identical positions (chunk_tasks contract) and the unchunked '
                'call allocates result with idx_arr.shape[0] rows',
-               'entry_impl(I, J, p) is replaced by its frame contract: it stores Entry(I, J, t) to p[t], t < number of block components, and nothing else '
-               '(frame of the shipped and generated kernels: see the entry_impl frame obligations)'],
+               'entry_impl(I, J, p) is replaced by its frame contract: if the supports of I and J overlap it stores Entry(I, J, t) to p[t], t < number of '
+               'block components; otherwise it returns without writing (the generated kernels do); nothing else is written (frame of the shipped and '
+               'generated kernels: see the entry_impl frame obligations).  So out[m] is Entry(...) or its OLD content: the callers hand in zero-initialised '
+               'arrays (obligation result-zero-initialised)'],
     )
 
 
@@ -528,4 +543,65 @@ def transpose_table_obligations():
         if not (ok1 and ok2):
             o.goal = 'under `if symmetric:` %r (expected %r); kernel arguments %r (expected %r)' % (defs, want, args[2:2 + 2 * d], seq)
         obs.append(o)
+    return obs, None
+
+
+
+def zero_init_obligations():
+    """multi_entries / multi_blocks of BaseAssembler{1,2,3}D / BaseVectorAssembler{1,2,3}D allocate the array they hand to the chunk kernels with
+    np.zeros: entry_impl does not write pairs with disjoint supports, so those entries are 0 only because the array starts as zeros.
+    Reaching-definition analysis (names aliased by plain assignments).  Three-valued: np.zeros proved, np.empty refuted, anything else unknown."""
+    import ast
+    from pyvc import frontend
+    from pyvc.symexec import Obligation
+    FF = 'pyiga/genericasm.pxi'
+    src = frontend.load(FF)
+    obs = []
+    for cls in src.classes():
+        for fn in cls.body:
+            if not (isinstance(fn, ast.FunctionDef) and fn.name in ('multi_entries', 'multi_blocks')):
+                continue
+            chunk = fn.name + '_chunk'
+            defs = {}
+            for n in ast.walk(fn):
+                if isinstance(n, (ast.Assign, ast.AnnAssign)) and getattr(n, 'value', None) is not None:
+                    tg = n.targets[0] if isinstance(n, ast.Assign) else n.target
+                    if isinstance(tg, ast.Name):
+                        defs.setdefault(tg.id, []).append(n.value)
+            arg = None
+            for n in ast.walk(fn):
+                if isinstance(n, ast.Call) and isinstance(n.func, ast.Attribute) and n.func.attr == chunk and isinstance(n.func.value, ast.Name) \
+                        and n.func.value.id == 'self' and len(n.args) == 2 and isinstance(n.args[1], ast.Name) and n.args[1].id in defs:
+                    arg = n.args[1].id
+                    break
+            o = Obligation('assemble_tools_cy:%s.%s:result-zero-initialised' % (cls.name, fn.name), 'rule', fn.lineno, [], None,
+                           '%s.%s hands a zero-initialised array to %s (pairs with disjoint supports are not written)' % (cls.name, fn.name, chunk), src=FF)
+            status, why = 'unknown', 'call of self.%s(idx_arr, <name>) not found' % chunk
+            seen = set()
+            while arg is not None and arg not in seen:
+                seen.add(arg)
+                vs = defs.get(arg, [])
+                if len(vs) != 1:
+                    why = '%s has %d definitions' % (arg, len(vs))
+                    break
+                v = vs[0]
+                if isinstance(v, ast.Call) and isinstance(v.func, ast.Name) and v.func.id == '__cast__':
+                    v = v.args[0]
+                if isinstance(v, ast.Name):
+                    arg = v.id
+                    continue
+                txt = ast.unparse(v)
+                if txt.startswith('np.zeros('):
+                    status, why = 'proved', ''
+                elif txt.startswith('np.empty('):
+                    status, why = 'refuted', 'allocated by %s' % txt
+                else:
+                    why = 'allocated by %s' % txt
+                break
+            o.status, o.backend, o.time = status, 'ast-dataflow (reaching definition)', 0.0
+            if status != 'proved':
+                o.goal = why
+            obs.append(o)
+    if len(obs) < 6:
+        raise KeyError('expected multi_entries/multi_blocks of 6 base classes, found %d' % len(obs))
     return obs, None
